@@ -27,7 +27,7 @@ class C19(Prop):
                "hook verif_process_memory (constructs the real LinuxProcessMemory over given files)"]
     ASSUMPTIONS = ["procfs behaviour (maps format, pagemap bit layout, read_exact on /proc/pid/mem) is as documented in "
                    "proc(5); the victim does not change between listing and fetch",
-                   "end-to-end: a cooperating victim process (anonymous, private and shared file mappings, needles near "
+                   "end-to-end: a cooperating victim process (private and shared anonymous mappings, private and shared mappings of files of the work directory and of /dev/shm, needles near "
                    "page and chunk boundaries, pages modified after mapping) is scanned through the real /proc with "
                    "Scanner::scan_process: 8 layouts x 4 settings in the quick tier, 200 x 4 in the thorough tier"]
 
@@ -144,7 +144,7 @@ class C19(Prop):
         for i in range(rng.range(1, 3)):
             pages = rng.range(1, 5)
             ln = pages * 4096
-            kind = rng.choice(["anon", "file_private", "file_private", "file_shared"])
+            kind = rng.choice(["anon", "anon_shared", "file_private", "file_private", "file_shared"])
             cands = sorted(set([rng.choice([0, 1, 10, 4096 - NL, 4096 - NL + 1, 4090, 4095, 4096, 4097, 8192 - 6, 8192,
                                             ln - NL, ln - NL - 1, rng.range(0, ln - NL)]) for _ in range(rng.range(2, 6))]))
             offs = []
@@ -152,13 +152,15 @@ class C19(Prop):
                 if 0 <= o <= ln - NL and all(abs(o - p) >= NL for p in offs):
                     offs.append(o)
             m = {"kind": kind, "pages": pages, "plant": [], "erase": [], "disk_needles": [], "file_len": 0}
-            if kind == "anon":
+            if kind in ("anon", "anon_shared"):
                 m["plant"] = offs
                 present = list(offs)
             else:
                 flen = rng.choice([ln, ln - rng.range(1, 4095), ln + 100])
                 m["file_len"] = flen
                 m["foff_pages"] = rng.choice([0, 0, 1, 3])   # the mapping starts this far into its file
+                if rng.chance(1, 3):
+                    m["dir"] = "shm"                         # a POSIX shared memory object (a file of /dev/shm)
                 disk, plant, erase = [], [], []
                 for o in offs:
                     c = rng.below(3)
